@@ -154,7 +154,6 @@ func GenInput(r *simrt.RNG, tier string) Plan {
 	}
 }
 
-
 // fixed-arity node kinds (language reference: binary operators take two operands,
 // a key-value pair has a key and a value, an assignment a target and a value, ...)
 var arity = map[string][2]int{
